@@ -143,6 +143,27 @@ def rdPeaks (bs : List Byte) : Nat → Rd → Rd
   | 0, r => r
   | n+1, r => rdPeaks bs n (rdBE bs (rdBE bs r 4).2 8).2
 
+/-- the 'data' case of the chunk switch for a chunk size `csize`, the reader standing behind the size field (what `walk` does inline
+    for the size the file states; `walk_data_inline` in SfProofs/CafDataEnd.lean) -/
+def dataCase (bs : List Byte) (csize : Int) (r : Rd) (s : Scan) : Walk :=
+  let flen : Int := bs.length
+  let r := (rdBE bs r 4).2                                -- the edit count
+  let hi : Int := r.indx
+  let dl : Int := if flen > 0 ∧ csize > flen - hi + 10 then flen - hi - 8 else csize - 4
+  let dend : Int := if dl + hi < flen then dl + hi else s.dataend
+  if dl < -0x80000000 ∨ dl > 0x7FFFFFFF then .unmodelled else
+  let r := skip bs r dl
+  if (ftell bs r : Int) ≥ flen - 8 then .done { haveData := true, dataoffset := hi.toNat, datalength := dl, dataend := dend }
+  else .unmodelled
+
+/-- a negative chunk size.  Since "fix: a CAF file whose 'data' chunk size is -1 (audio data runs to the end of the file) could not be
+    opened" a 'data' chunk of size −1 stands for the bytes between the chunk body (`psf->header.indx`, behind the size field) and the end
+    of the file and takes the ordinary 'data' path with that size (the C code substitutes the size in front of the `chunk_size < 0` test;
+    the substituted size is neither negative nor beyond the file).  Every other negative size ends the walk.
+    `old = true` is the rule before that repair (KF-CAF-DATA-MINUS-ONE): −1 ended the walk too — the branch for it was dead code. -/
+def negSize (old : Bool) (bs : List Byte) (m : List Byte) (csize : Int) (r : Rd) (s : Scan) : Walk :=
+  if !old ∧ m == mk "data" ∧ csize = -1 then dataCase bs ((bs.length : Int) - (r.indx : Int)) r s else .done s
+
 /-- the `while (1)` loop of caf_read_header -/
 def walk (bs : List Byte) (ch : Nat) : Nat → Rd → Scan → Walk
   | 0, _, _ => .unmodelled
@@ -152,7 +173,7 @@ def walk (bs : List Byte) (ch : Nat) : Nat → Rd → Scan → Walk
     | ([m, sz], r) =>
     if m == [0, 0, 0, 0] then .done s else
     let csize : Int := sext 64 (ofBE sz)
-    if csize < 0 then .done s else
+    if csize < 0 then negSize false bs m csize r s else
     if csize > flen then .done s else
     -- the tests every iteration ends with
     let fin (r : Rd) (s : Scan) : Walk :=
@@ -228,6 +249,92 @@ def parse (bs : List Byte) : ParseRes :=
   match rdSeq bs [4, 2, 2, 4, 8, 8, 4, 4, 4, 4, 4, 4] {} with
   | ([_, _, _, _, size, rate, fid, flags, pkt, fpp, ch, bits], r) =>
     parseDesc bs (ofBE size) (ofBE rate) fid (ofBE flags) (ofBE pkt) (ofBE fpp) (ofBE ch) (ofBE bits) r
+  | _ => .unmodelled
+
+/-! ## the reader before the repair of KF-CAF-DATA-MINUS-ONE (history) -/
+
+/-- `walk` before the repair of KF-CAF-DATA-MINUS-ONE (history; nothing above uses it): every negative chunk size ends the walk -/
+def walkOld (bs : List Byte) (ch : Nat) : Nat → Rd → Scan → Walk
+  | 0, _, _ => .unmodelled
+  | fuel+1, r, s =>
+    let flen : Int := bs.length
+    match rdSeq bs [4, 8] r with                          -- "mE8": marker and size (zeros on a short read)
+    | ([m, sz], r) =>
+    if m == [0, 0, 0, 0] then .done s else
+    let csize : Int := sext 64 (ofBE sz)
+    if csize < 0 then negSize true bs m csize r s else
+    if csize > flen then .done s else
+    -- the tests every iteration ends with
+    let fin (r : Rd) (s : Scan) : Walk :=
+      if csize ≥ 0xffffff00 then .done s
+      else if (ftell bs r : Int) ≥ flen - 8 then .done s
+      else walkOld bs ch fuel r s
+    let skipChunk (r : Rd) : Walk :=
+      if (r.indx : Int) + csize > cacheLimit then .unmodelled else fin (skip bs r csize) s
+    if m == mk "peak" then
+      if csize ≠ 4 + 12 * (ch : Int) then .err else
+      let r := (rdBE bs r 4).2
+      fin (rdPeaks bs ch r) s
+    else if m == mk "chan" then
+      -- caf_read_chanmap: "E444" then the rest of the chunk is skipped (the map itself does not reach SF_INFO)
+      if csize < 12 then skipChunk r else
+      if (r.indx : Int) + csize > cacheLimit then .unmodelled else
+      let r := (rdSeq bs [4, 4, 4] r).2
+      if r.failed then .unmodelled else fin (skip bs r (csize - 12)) s
+    else if m == mk "info" then
+      -- caf_read_strings: "E4b" reads the count and all the key/value bytes in one go; a chunk of exactly 4 bytes is not read at all
+      if csize < 4 then .err else
+      if csize > flen - (r.indx : Int) then .err else
+      if (r.indx : Int) + csize > cacheLimit then .unmodelled else
+      if csize > 4 then fin (rdSeq bs [4, (csize - 4).toNat] r).2 s else fin r s
+    else if m == mk "pakt" then .unmodelled
+    else if m == mk "data" then
+      let r := (rdBE bs r 4).2                            -- the edit count
+      let hi : Int := r.indx
+      let dl : Int := if flen > 0 ∧ csize > flen - hi + 10 then flen - hi - 8 else csize - 4
+      let dend : Int := if dl + hi < flen then dl + hi else s.dataend
+      if dl < -0x80000000 ∨ dl > 0x7FFFFFFF then .unmodelled else
+      let r := skip bs r dl
+      if (ftell bs r : Int) ≥ flen - 8 then .done { haveData := true, dataoffset := hi.toNat, datalength := dl, dataend := dend }
+      else .unmodelled                                    -- the scan would go on behind the audio data
+    else skipChunk r                                      -- 'free', 'kuki' and unknown chunks
+    | _ => .unmodelled
+
+/-- `parseDesc` over `walkOld` -/
+def parseDescOld (bs : List Byte) (size rate : Nat) (fid : List Byte) (flags pkt fpp ch bits : Nat) (r : Rd) : ParseRes :=
+  let csize : Int := sext 64 size
+  if csize < 32 then .err else
+  if !Float.f64.isFinite rate then .unmodelled else
+  let sr : Int := (Float.f64.toDy rate).rint
+  if sr < -0x80000000 ∨ sr > 0x7FFFFFFF then .unmodelled else
+  let d : Desc := { fmtId := fid, flags := flags, pktBytes := pkt, fpp := fpp, ch := ch, bits := bits }
+  if ch > 1024 then .err else
+  if csize - 32 > cacheLimit then .unmodelled else
+  let r := if csize > 32 then skip bs r (csize - 32) else r
+  match walkOld bs ch bs.length r {} with
+  | .err => .err
+  | .unmodelled => .unmodelled
+  | .done s =>
+    if !s.haveData then .err else
+    if d.fmtId == mk "alac" then .unmodelled else
+    match decodeDesc d with
+    | none => .err
+    | some (codec, bytew) =>
+      if ch == 0 then .err else
+      let dl := initData s.dataoffset s.dataend bs.length
+      if sr < 1 then .err else
+      if dl < 0 then .err else
+      .ok { fmtWord := (if flags / 2 % 2 == 1 then 0x10000000 else 0) + 0x180000 + codec, ch := ch, sr := sr,
+            frames := dl.toNat / (bytew * ch), dataoffset := s.dataoffset, datalength := dl.toNat }
+
+/-- the reader before the repair of KF-CAF-DATA-MINUS-ONE -/
+def parseOld (bs : List Byte) : ParseRes :=
+  if bs.length < 12 then .err else                        -- guess_file_type: short read, no extension to fall back on
+  if bs.take 4 != mk "caff" ∨ (bs.drop 8).take 4 != mk "desc" then .unmodelled else
+  -- "pmE2E2" 'caff' version flags, "mE8b" 'desc' size rate, "mE44444" the description
+  match rdSeq bs [4, 2, 2, 4, 8, 8, 4, 4, 4, 4, 4, 4] {} with
+  | ([_, _, _, _, size, rate, fid, flags, pkt, fpp, ch, bits], r) =>
+    parseDescOld bs (ofBE size) (ofBE rate) fid (ofBE flags) (ofBE pkt) (ofBE fpp) (ofBE ch) (ofBE bits) r
   | _ => .unmodelled
 
 /-! ## write session -/
